@@ -115,9 +115,15 @@ func TestDrv_ReportLoop(t *testing.T) {
 		docs := 0
 		for {
 			var doc struct {
-				Latencies   struct{ Total int64 `json:"total"` } `json:"latencies"`
-				BytesIn     struct{ Total int64 `json:"total"` } `json:"bytes_in"`
-				BytesOut    struct{ Total int64 `json:"total"` } `json:"bytes_out"`
+				Latencies struct {
+					Total int64 `json:"total"`
+				} `json:"latencies"`
+				BytesIn struct {
+					Total int64 `json:"total"`
+				} `json:"bytes_in"`
+				BytesOut struct {
+					Total int64 `json:"total"`
+				} `json:"bytes_out"`
 				Requests    int64            `json:"requests"`
 				Success     float64          `json:"success"`
 				StatusCodes map[string]int64 `json:"status_codes"`
